@@ -170,8 +170,9 @@ def grouping(ctx):
             want = [b for b in bases if compatible(t, b)] if t else None
             got = mm.get(t)
             if t == ():
-                if got is not None:
-                    raise Fail("map_measurements_qwc lists the identity term", sig="map_measurements_qwc:identity")
+                # the identity is compatible with every basis; the code leaves it out - either is consistent with the documentation
+                if got is not None and sorted(got) != sorted(bases):
+                    raise Fail(f"map_measurements_qwc lists the identity term with {got}", sig="map_measurements_qwc:identity")
                 continue
             if got is None or sorted(got) != sorted(want):
                 raise Fail(f"map_measurements_qwc[{t}] = {got}, qubit-wise compatible bases are {want}", sig="map_measurements_qwc:bases")
@@ -204,7 +205,8 @@ def grouping(ctx):
 
 @st.composite
 def hist_data(draw, max_len=100, max_out=40, kind=None, min_out=1):
-    L = draw(st.one_of(st.integers(1, 6), st.integers(1, max_len)))
+    L = draw(st.one_of(st.integers(1, 6), st.integers(2, 6), st.integers(1, max_len)))
+    min_out = min(max(min_out, draw(st.sampled_from([1, 2, 3, 3, 3]))), 2 ** min(L, 6), max_out)
     keys = draw(st.lists(st.text("01", min_size=L, max_size=L), min_size=min_out, max_size=max_out, unique=True))
     kind = kind or draw(st.sampled_from(["counts", "counts", "probs"]))
     if kind == "counts":
